@@ -5,6 +5,7 @@
 -/
 import Ark.Props.C08
 import Ark.Props.C08World
+import Ark.Props.C08Rel
 
 namespace Ark.Props.C08Top
 open Ark
@@ -76,6 +77,61 @@ theorem world_lock_hypothesis_necessary : type_of% @Ark.Props.C08World.lock_hypo
 
 /-- finding: a callback that changes the world (e.g. creates an entity) is outside the theorem: the statement is for read-only callbacks -/
 theorem world_readOnly_necessary : type_of% @Ark.Props.C08World.readOnly_necessary := @Ark.Props.C08World.readOnly_necessary
+
+
+
+/-! ### Relation events at world level (Props/C08Rel): worlds with relation components, any set of registered observers, read-only callbacks -/
+
+/-- the setting: the world invariant with relations, with any set of registered observers -/
+theorem rel_tinvObs_is_tinv_plus_obsOK : type_of% @Ark.Props.C08Rel.tinvObs_is_tinv_plus_obsOK := @Ark.Props.C08Rel.tinvObs_is_tinv_plus_obsOK
+
+/-- the setting is kept by the operations below (so the theorems iterate) -/
+theorem rel_setting_kept : type_of% @Ark.Props.C08Rel.setting_kept := @Ark.Props.C08Rel.setting_kept
+
+/-- SetRelations is rejected exactly as without observers -/
+theorem rel_setRelations_rejected_as_without_observers : type_of% @Ark.Props.C08Rel.setRelations_rejected_as_without_observers := @Ark.Props.C08Rel.setRelations_rejected_as_without_observers
+
+/-- **SetRelations**: succeeds exactly as without observers, yields the observer-free result up to observers/log/lock pool; a call that changes no target returns the world untouched and notifies nobody (not even wildcard observers); otherwise the records appended are one per OnRemoveRelations observer whose specification fires for (mask, the relation components whose target CHANGES), then one per OnAddRelations observer likewise -/
+theorem rel_setRelations_callbacks : type_of% @Ark.Props.C08Rel.setRelations_callbacks := @Ark.Props.C08Rel.setRelations_callbacks
+
+/-- the change set: the relation components named whose current target differs from the one given -/
+theorem rel_changedRels_iff : type_of% @Ark.Props.C08Rel.changedRels_iff := @Ark.Props.C08Rel.changedRels_iff
+
+/-- which observers fire in a relation round: the documented rule on event type, For (⊆ changed components), With/Without/Exclusive -/
+theorem rel_firingRel_iff : type_of% @Ark.Props.C08Rel.firingRel_iff := @Ark.Props.C08Rel.firingRel_iff
+
+/-- each firing observer is notified exactly once -/
+theorem rel_setRelations_exactly_once : type_of% @Ark.Props.C08Rel.setRelations_exactly_once := @Ark.Props.C08Rel.setRelations_exactly_once
+
+/-- whether an observer is notified by SetRelations does not depend on the other observers -/
+theorem rel_setRelations_observer_independent : type_of% @Ark.Props.C08Rel.setRelations_observer_independent := @Ark.Props.C08Rel.setRelations_observer_independent
+
+/-- entities without relation components never trigger relation observers -/
+theorem rel_no_relation_no_relation_observers : type_of% @Ark.Props.C08Rel.no_relation_no_relation_observers := @Ark.Props.C08Rel.no_relation_no_relation_observers
+
+/-- NewEntity with targets: the entity round and the OnAddRelations round (fires exactly when targets are given), on the world after the change -/
+theorem rel_newEntity_rel_callbacks : type_of% @Ark.Props.C08Rel.newEntity_rel_callbacks := @Ark.Props.C08Rel.newEntity_rel_callbacks
+
+/-- Add with relation components: the component round and the OnAddRelations round -/
+theorem rel_add_rel_callbacks : type_of% @Ark.Props.C08Rel.add_rel_callbacks := @Ark.Props.C08Rel.add_rel_callbacks
+
+/-- Remove of relation components: the component round and the OnRemoveRelations round (fires exactly when a relation component is removed), under one lock, before the change -/
+theorem rel_remove_rel_callbacks : type_of% @Ark.Props.C08Rel.remove_rel_callbacks := @Ark.Props.C08Rel.remove_rel_callbacks
+
+/-- RemoveEntity of an entity with relation components (also of a relation target): the entity round and the OnRemoveRelations round, before the change; the clean-up of children neither reads nor writes observers -/
+theorem rel_removeEntity_rel_callbacks : type_of% @Ark.Props.C08Rel.removeEntity_rel_callbacks := @Ark.Props.C08Rel.removeEntity_rel_callbacks
+
+/-- RemoveEntity succeeds or fails exactly as without observers, including the clean-up -/
+theorem rel_removeEntity_as_without_observers : type_of% @Ark.Props.C08Rel.removeEntity_as_without_observers := @Ark.Props.C08Rel.removeEntity_as_without_observers
+
+/-- exactly once per firing observer, in every relation round -/
+theorem rel_relRound_exactly_once : type_of% @Ark.Props.C08Rel.relRound_exactly_once := @Ark.Props.C08Rel.relRound_exactly_once
+
+/-- independence of the other observers, in every relation round -/
+theorem rel_relRound_observer_independent : type_of% @Ark.Props.C08Rel.relRound_observer_independent := @Ark.Props.C08Rel.relRound_observer_independent
+
+/-- finding: with all 64 lock bits outstanding SetRelations panics (the lock-cycle hypothesis is needed) -/
+theorem rel_lock_hypothesis_necessary : type_of% @Ark.Props.C08Rel.lock_hypothesis_necessary := @Ark.Props.C08Rel.lock_hypothesis_necessary
 
 
 end Ark.Props.C08Top
